@@ -2063,6 +2063,13 @@ private:
     {
         if (other_tags_[item_tag])
         {
+            if (raw_tag_ >= 0x40 && raw_tag_ <= 0x57 && JSONCONS_UNLIKELY(nesting_depth_ >= max_nesting_depth_))
+            {
+                // a typed array is delivered as an array: it is one more level of nesting
+                ec = cbor_errc::max_nesting_depth_exceeded;
+                more_ = false;
+                return;
+            }
             switch (raw_tag_)
             {
                 case 0x2:
